@@ -190,6 +190,10 @@ def gen_shape(rng, symbolic=True):
                     st.append("uniform_shape(%s)" % nm)
                 else:
                     st.append("uniform_shape(%d)" % rng.choice([1, 2, 3, 7]))
+            elif symbolic and rng.random() < 0.2:
+                nm = "%sN%d" % (V, lvl)
+                syms[nm] = rng.choice([1, 2, 3])
+                st.append("nway_shape(%s)" % nm)
             else:
                 st.append("nway_shape(%d)" % rng.choice([1, 2, 3]))
         # uniform_shape sizes must shrink going down for the split to be meaningful; keep as generated (sizes that do not
@@ -208,6 +212,7 @@ def gen_occ(rng):
     expr, decl = rng.choice([b for b in BASES if "+" not in b[0]])
     vs = sorted(set("".join(decl.values())))
     stacks = {}
+    syms = {}
     for v in vs:
         V = v.upper()
         holders = [t for t, r in decl.items() if v in r and t != "Z"]
@@ -216,11 +221,18 @@ def gen_occ(rng):
         if k and rng.random() < 0.4:
             st.append("uniform_shape(%d)" % rng.choice([2, 3]))
         # the leader is chosen per level: different levels of one rank may follow different tensors
-        st += ["uniform_occupancy(%s.%d)" % (rng.choice(holders), rng.choice([1, 2, 3])) for _ in range(k)]
+        for lvl in range(k):
+            if rng.random() < 0.2:                      # symbolic occupancy (a name the user supplies)
+                nm = "%sO%d" % (V, lvl)
+                syms[nm] = rng.choice([1, 2, 3])
+                st.append("uniform_occupancy(%s.%s)" % (rng.choice(holders), nm))
+            else:
+                st.append("uniform_occupancy(%s.%d)" % (rng.choice(holders), rng.choice([1, 2, 3])))
         stacks[V] = st
     lo = interleave(rng, [levels(v.upper(), len(stacks[v.upper()])) for v in vs])
     y = mk_yaml(updecl(decl), [expr], part={"Z": stacks}, lo={"Z": lo})
     cfg = {v.upper(): (rng.choice([3, 4]) if stacks[v.upper()] else 2) for v in vs}
+    cfg.update(syms)
     return {"yaml": y, "configs": [cfg], "family": "occupancy", "key": y}
 
 
@@ -553,6 +565,15 @@ def conv_systematic(tier):
             y = mk_yaml(decl, [expr], part={"O": {"Q": ["uniform_shape(2)"], "W": ["follow(Q)"]}}, lo={"O": lo})
             out.append({"yaml": y, "configs": [{"Q": 4, "S": 2, "W": a * 3 + b + 1}, {"Q": 6, "S": 2, "W": a * 5 + b + 1}], "family": "conv-us-mask", "key": y,
                         "coeffs": (a, b), "lo": lo, "cap": 60})
+    # three-term index expressions (the halo of the follower is a sum: post_halo=-2 + S + T)
+    decl3 = {"I": ["W"], "F": ["S"], "G": ["T"], "O": ["Q"]}
+    for expr3, wx in (("O[q] = I[q + s + t] * F[s] * G[t]", lambda Q, S, T: Q + S + T - 2), ("O[q] = I[2*q + s + 2*t] * F[s] * G[t]", lambda Q, S, T: 2 * (Q - 1) + (S - 1) + 2 * (T - 1) + 1)):
+        for lo in (["Q", "S", "T"], ["S", "T", "Q"], ["W", "S", "T"], None):
+            y = mk_yaml(decl3, [expr3], lo={"O": lo} if lo else None)
+            out.append({"yaml": y, "configs": [{"Q": 3, "S": 2, "T": 2, "W": wx(3, 2, 2)}], "family": "affine-conv1-3term", "key": y, "coeffs": (1, 1), "cap": 40})
+        for lo in (["Q1", "Q0", "S", "T"], ["Q1", "S", "T", "Q0"], ["S", "Q1", "T", "Q0"], ["Q1", "W0", "T", "Q0"]):
+            y = mk_yaml(decl3, [expr3], part={"O": {"Q": ["uniform_shape(2)"], "W": ["follow(Q)"]}}, lo={"O": lo})
+            out.append({"yaml": y, "configs": [{"Q": 4, "S": 2, "T": 2, "W": wx(4, 2, 2)}], "family": "conv-us-3term", "key": y, "coeffs": (1, 1), "lo": lo, "cap": 40})
     # two levels on the index-math rank (known finding KF-CONV-2LEVEL; kept so that the finding is re-derived on every run)
     for lo in (["Q2", "Q1", "W0", "Q0"], ["Q2", "Q1", "S", "Q0"], ["S", "Q2", "Q1", "Q0"]):
         y = mk_yaml({"I": ["W"], "F": ["S"], "O": ["Q"]}, ["O[q] = I[q + s] * F[s]"], part={"O": {"Q": ["uniform_shape(4)", "uniform_shape(2)"], "W": ["follow(Q)"]}}, lo={"O": lo})
@@ -609,6 +630,26 @@ def frac_follow_core():
             for lo in ([["M%d" % i for i in range(nlev, -1, -1)]] + ([None] if nlev == 1 else [])):
                 y = mk_yaml({"A": ["K"], "B": ["M"], "Z": ["M"]}, ["Z[m] = A[%d*m] * B[m]" % a], part={"Z": {"K": [d], "M": ["follow(K)"]}}, lo={"Z": lo} if lo else None)
                 out.append({"yaml": y, "configs": [{"M": M, "K": a * (M - 1) + 1} for M in (3, 5)], "family": "affine-frac-follow", "key": y, "coeffs": (a, 0), "cap": 40})
+    return out
+
+
+
+def occ_flat_core():
+    """Deterministic core: flattening of a level that exists only after occupancy partitioning (K: [uniform_occupancy(..)], (K0, M):
+    [flatten()]): the flatten is applied inside / after the dynamic split (FlowGraph.__build_dyn_part with a tuple)."""
+    out = []
+    cases = [({"A": ["K", "M"], "B": ["K", "N"], "Z": ["M", "N"]}, "Z[m, n] = A[k, m] * B[k, n]", "M", "N"),
+             ({"A": ["K", "M"], "B": ["K"], "Z": ["M"]}, "Z[m] = A[k, m] * B[k]", "M", None),
+             ({"A": ["K", "M"], "B": ["K", "M"], "Z": ["M"]}, "Z[m] = A[k, m] * B[k, m]", "M", None)]
+    for decl, expr, fr, other in cases:
+        for leader, size in (("A", 2), ("B", 1)):
+            for pair in (("K0", fr), (fr, "K0")):
+                fl = "".join(pair)
+                rest = [other] if other else []
+                for lo in (["K1", fl] + rest, rest + ["K1", fl]) if rest else (["K1", fl],):
+                    part = {"K": ["uniform_occupancy(%s.%d)" % (leader, size)], "(%s, %s)" % pair: ["flatten()"]}
+                    y = mk_yaml(updecl(decl) if False else decl, [expr], part={"Z": part}, lo={"Z": lo})
+                    out.append({"yaml": y, "configs": [{"K": 4, "M": 2, "N": 2}], "family": "occupancy-flatten-core", "key": y, "cap": 30})
     return out
 
 
